@@ -160,6 +160,10 @@ def _tam_once(sess, case, s, m, metric, points, target):
         gx, gy = np.asarray(call["x"], dtype=float), np.asarray(call["y"], dtype=float)
         ok = (gx.shape == exp_pts.shape and bool(np.all(np.abs(gx - exp_pts) <= 4 * np.spacing(np.maximum(np.abs(exp_pts), 1.0))))
               and np.array_equal(np.asarray(call["t"]), target))
+        if ok and isinstance(points, int):
+            # "k evenly spaced points spanning the scores": the end points are the extreme scores themselves (the metric jumps there);
+            # only the interior grid points carry rounding
+            ok = bool(gx[0] == allv[0] and gx[-1] == allv[-1])
         if ok:
             with monitors.oracle_scope_ctx():
                 y_at = np.asarray((m(s, gx) if callable(m) else getattr(s, m)(gx)), dtype=float)
